@@ -302,8 +302,9 @@ class World(object):
 
 
 def execute(plan):
-    from sim.observe import exc_info, quiet_std
+    from sim.observe import exc_info, quiet_std, install_step_budget, reset_step_budget
     quiet_std()
+    install_step_budget()
     w = World(plan)
     events = []
     try:
@@ -313,8 +314,12 @@ def execute(plan):
             k0 = w.compiled_keys()
             f0 = w.io.fired
             ev = {'i': i}
+            reset_step_budget()          # the budget is per operation
             try:
                 ev['r'] = w.do(i, op)
+            except core.StepBudgetExceeded:
+                ev['r'] = 'step-budget-exceeded'
+                w.probes['budget_exceeded_ops'] = w.probes.get('budget_exceeded_ops', 0) + 1
             except Exception as e:
                 x = exc_info(e)
                 x['msg'] = x['msg'].replace(w.tmp, '<tmp>')      # traces must not depend on scratch paths
@@ -791,6 +796,8 @@ def oracle_with(plan, tr, refs):
         key, _mini = ref_spec(plan, i)
         exp = refs.get(key)
         got = ev['r']
+        if got == 'step-budget-exceeded' or exp == 'step-budget-exceeded':
+            continue          # inconclusive by construction (counted in the probes)
         comp = _client_compiled(plan, op)
         if fam in ('c13', 'c13-io'):
             if got != exp:
@@ -802,6 +809,8 @@ def oracle_with(plan, tr, refs):
                                                    'render', 'wire', 'query', 'scan') and _c08_domain(plan, op):
             keyi, _ = ref_spec(plan, i, compiled_override=False)
             expi = refs.get(keyi)
+            if expi == 'step-budget-exceeded':
+                continue
             if got != expi:
                 clause = 'C08.r' if _uses_loaded(plan, tr, i) else 'C08.h'
                 out.append({'property': 'C08', 'clause': clause, 'op': op['op'],
